@@ -105,7 +105,7 @@ def main(argv=None):
         )
         if pid == "C08":
             from checks.history import validate_rels
-            from checks.pairs import exec_pair, exec_rerun, pair_cases, rerun_cases
+            from checks.pairs import exec_pair, exec_redeclare, exec_rerun, pair_cases, redeclare_cases, rerun_cases
             from harness.runner import pmap
             from harness import tlc as tlcmod
 
@@ -118,7 +118,7 @@ def main(argv=None):
                 rel_lines.extend(r["rels"])
                 replays[r["tid"]] = r["replay"]
                 ptraces.extend(r["traces"])
-            for kind, r in pmap(exec_rerun, rerun_cases()):
+            for kind, r in pmap(exec_rerun, rerun_cases()) + pmap(exec_redeclare, redeclare_cases()):
                 if kind == "err":
                     report.machinery("rerun harness crashed: " + r[:1500])
                     continue
@@ -185,6 +185,14 @@ def main(argv=None):
         report.coverage["traces_validated_against_impl"] = report.coverage.get("traces_validated_against_impl", 0) + cl.get("configurations", 0)
         if cl.get("f9_found_by_model"):
             report.notes.append("Cleanup.tla: the strict form of SurvivorsAreHeld fails in the model (a cycle of creator and dependency edges among detached nodes: finding F9)")
+    if pid == "C09":
+        # Layer G: no sequence of file-system events makes the watcher's bookkeeping inconsistent
+        # (spec/WatchSets.tla: Disjoint, DeletedAbsent, UpdatedPresent), which process_nglob_changes relies on
+        with Scratch():
+            from checks import watchsets
+            ws = watchsets.run(report, args.tier, args.seed, pid)
+        report.coverage["watchsets"] = ws
+        report.coverage["states"] = report.coverage.get("states", 0) + ws.get("states", 0)
     if pid in ("C03", "C10"):
         # Layer G: amended inputs, deferral, wake-up and the defer cap (spec/Defer.tla) model checked
         # and replayed into the real Workflow
